@@ -38,6 +38,13 @@ pub struct NetCfg {
     pub inject_from_us: u64,
     #[serde(default)]
     pub inject_to_us: u64,
+    /// per-mille of datagrams whose verbatim copy is delivered again much later (after the receiver's
+    /// duplicate window has moved on)
+    #[serde(default)]
+    pub replay_late: u32,
+    /// one-way delay for datagrams from/to the k-th distinct client address (missing entries: delay_us)
+    #[serde(default)]
+    pub addr_delays_us: Vec<u64>,
 }
 
 pub struct AdvNet {
@@ -49,6 +56,10 @@ pub struct AdvNet {
     /// datagrams to inject: (at_us, to_server, payload)
     pub inject: Arc<Mutex<Vec<(u64, bool, Vec<u8>)>>>,
     pub client_addrs: Arc<Mutex<Vec<SocketAddr>>>,
+    /// destination connection id of the client's very first Initial (what an on-path attacker has seen)
+    first_dcid: Option<Vec<u8>>,
+    first_scid: Option<Vec<u8>>,
+    injected: u64,
 }
 
 impl AdvNet {
@@ -58,7 +69,9 @@ impl AdvNet {
         let mut inj = Vec::new();
         if cfg.inject > 0 && cfg.inject_to_us > cfg.inject_from_us {
             for k in 0..2 * cfg.inject {
-                let t = rng.random_range(cfg.inject_from_us..cfg.inject_to_us);
+                // half of them early (handshake and the first round trips after it), the rest spread over the whole interval
+                let hi = if k % 4 < 2 { cfg.inject_from_us + (cfg.inject_to_us - cfg.inject_from_us) / 10 } else { cfg.inject_to_us };
+                let t = rng.random_range(cfg.inject_from_us..hi.max(cfg.inject_from_us + 1));
                 let len = [21usize, 40, 53, 100, 1200][rng.random_range(0..5)] + rng.random_range(0..9);
                 let mut p: Vec<u8> = (0..len).map(|_| rng.random()).collect();
                 match rng.random_range(0..7) {
@@ -78,7 +91,7 @@ impl AdvNet {
             }
         }
         Self { cfg, rng, idx: HashMap::new(), sched, server: Default::default(),
-               inject: Arc::new(Mutex::new(inj)), client_addrs: Default::default() }
+               inject: Arc::new(Mutex::new(inj)), client_addrs: Default::default(), first_dcid: None, first_scid: None, injected: 0 }
     }
 
     fn decide(&mut self, dir: &'static str, idx: u64, now: u64, len: usize) -> String {
@@ -103,7 +116,7 @@ impl AdvNet {
         let r: u32 = self.rng.random_range(0..1000);
         let c = &self.cfg;
         let mut acc = 0;
-        for (p, name) in [(c.drop, "drop"), (c.dup, "dup"), (c.hold, "hold"), (c.corrupt, "corrupt"), (c.truncate, "truncate"), (c.corrupt_copy, "corrupt_copy")] {
+        for (p, name) in [(c.drop, "drop"), (c.dup, "dup"), (c.hold, "hold"), (c.corrupt, "corrupt"), (c.truncate, "truncate"), (c.corrupt_copy, "corrupt_copy"), (c.replay_late, "replay_late")] {
             acc += p;
             if r < acc {
                 return name.into();
@@ -142,8 +155,26 @@ impl Network for AdvNet {
         };
         let server = *self.server.lock().unwrap();
         let mut count = 0;
-        for (_t, to_server, payload) in due {
+        for (_t, to_server, mut payload) in due {
             let Some(server) = server else { continue };
+            self.injected += 1;
+            if let (true, Some(dcid), true) = (to_server, &self.first_dcid, self.injected % 2 == 0) {
+                // a forged long-header packet (Handshake / 0-RTT / Initial type) with an arbitrary body, addressed to
+                // the connection id the client chose for its first Initial
+                let ty = [0xe0u8, 0xd0, 0xc0][(self.injected / 2 % 3) as usize];
+                let mut f = vec![ty | (payload[0] & 0x0f), 0, 0, 0, 1, dcid.len() as u8];
+                f.extend_from_slice(dcid);
+                // mostly with the source connection id the client really uses (an on-path attacker has seen it)
+                match (&self.first_scid, self.injected % 8 == 0) {
+                    (Some(scid), false) => { f.push(scid.len() as u8); f.extend_from_slice(scid); }
+                    _ => { f.push(8); f.extend_from_slice(&payload[1..9]); }
+                }
+                if ty == 0xc0 { f.push(0); }
+                let body = payload.len().clamp(24, 1100);
+                f.extend_from_slice(&[0x40 | (body >> 8) as u8, body as u8]);
+                f.extend((0..body).map(|i| payload[i % payload.len()] ^ (i as u8)));
+                payload = f;
+            }
             let Some(client) = self.client_addrs.lock().unwrap().last().copied() else { continue };
             let (src, dst): (SocketAddr, SocketAddr) = if to_server { (client, server) } else { (server, client) };
             let len = payload.len();
@@ -173,6 +204,16 @@ impl Network for AdvNet {
                     ca.push(src);
                 }
             }
+            if dir == "c2s" && self.first_dcid.is_none() {
+                let p = &packet.payload;
+                if p.len() > 6 && p[0] & 0x80 != 0 && p.len() > 6 + p[5] as usize {
+                    let d = 6 + p[5] as usize;
+                    self.first_dcid = Some(p[6..d].to_vec());
+                    if p.len() > d + 1 + p[d] as usize {
+                        self.first_scid = Some(p[d + 1..d + 1 + p[d] as usize].to_vec());
+                    }
+                }
+            }
             let idx = {
                 let e = self.idx.entry(dir).or_insert(0);
                 *e += 1;
@@ -182,7 +223,12 @@ impl Network for AdvNet {
             let act = self.decide(dir, idx, now, len);
             let first = packet.payload.first().copied().unwrap_or(0);
             emit(json!({"ev": "dg", "dir": dir, "idx": idx, "len": len, "act": act, "first": first, "src": src.to_string(), "dst": dst.to_string(), "hash": fnv(&packet.payload)}));
-            let base = Duration::from_micros(self.cfg.delay_us + if self.cfg.jitter_us > 0 { self.rng.random_range(0..self.cfg.jitter_us) } else { 0 });
+            let path_delay = {
+                let ca = self.client_addrs.lock().unwrap();
+                let client_side = if dir == "c2s" { src } else { dst };
+                ca.iter().position(|a| *a == client_side).and_then(|k| self.cfg.addr_delays_us.get(k).copied()).unwrap_or(self.cfg.delay_us)
+            };
+            let base = Duration::from_micros(path_delay + if self.cfg.jitter_us > 0 { self.rng.random_range(0..self.cfg.jitter_us) } else { 0 });
             match act.as_str() {
                 "pass" => deliver(buffers, packet, base, dir, idx, 0),
                 "dup" => {
